@@ -56,12 +56,13 @@ def main():
             for r in ex.map(worker, [(k, g, root) for k, g in enumerate(groups) if g]): rows += r
     finally:
         shutil.rmtree(root, ignore_errors=True); run(['git', '-C', '/repo', 'worktree', 'prune'])
-    jp = os.path.join(HERE, 'seeded', 'RESULTS.json')
+    seed = os.environ.get('VERIF_SEED', '1'); sfx = '' if seed == '1' else '_seed' + seed      # robustness runs at other seeds are kept apart
+    jp = os.path.join(HERE, 'seeded', 'RESULTS%s.json' % sfx)
     allr = json.load(open(jp)) if os.path.exists(jp) else {}
     for r in rows: allr[r[0]] = dict(property=r[1], quick=r[2], needs=str(r[3]))
     json.dump(allr, open(jp, 'w'), indent=1, sort_keys=True)
-    with open(os.path.join(HERE, 'seeded', 'RESULTS.md'), 'w') as f:
-        f.write('Detection table of the seeded changes (written by tools/run_seeded.py; quick tier, seed 1).\n\n| seeded change | property | quick checks | needs to manifest (from the seeding agent\'s notes) |\n|---|---|---|---|\n')
+    with open(os.path.join(HERE, 'seeded', 'RESULTS%s.md' % sfx), 'w') as f:
+        f.write('Detection table of the seeded changes (written by tools/run_seeded.py; quick tier, seed ' + seed + ').\n\n| seeded change | property | quick checks | needs to manifest (from the seeding agent\'s notes) |\n|---|---|---|---|\n')
         for k in sorted(allr): f.write('| %s | %s | %s | %s |\n' % (k, allr[k]['property'], allr[k]['quick'], allr[k]['needs'].replace('|', '/').replace('\n', ' ')[:260]))
     return 0
 sys.exit(main())
